@@ -129,11 +129,15 @@ func (server *Server) serveConn(conn net.Conn) {
 		})
 	} else {
 		ctx, done := context.WithCancel(context.Background())
-		server.http1ConnChannelListener.SendToChannel(&hack.TLSClientHelloConn{
+		if !server.http1ConnChannelListener.SendToChannel(&hack.TLSClientHelloConn{
 			Done:              done,
 			Conn:              tlsConn,
 			ClientHelloRecord: rec,
-		})
+		}) {
+			// the HTTP/1.1 server stopped accepting (we are shutting down):
+			// nobody will serve this connection, release it
+			done()
+		}
 		// wait for the connection to be served by HTTP/1.1 server
 		<-ctx.Done()
 	}
